@@ -155,4 +155,166 @@ theorem opLocate_noInternal {c : Ctx} {e : Engine} {mx off : Option Int} {attrs 
   · exact NoInternal.pure _
   · exact locateFilter_noInternal ha _
 
+/-! ### attribute look-ups used by Modify / Delete -/
+
+/-- names whose getter / index look-up reads a field that only some object classes have -/
+def shapeSensitive : List String :=
+  ["Certificate Type", "Cryptographic Algorithm", "Cryptographic Length", "Cryptographic Usage Mask", "State"]
+
+theorem getAttr_noInternal_of {o : Obj} {name : String} (h : name ∉ shapeSensitive) :
+    NoInternal (getAttr o name) := by
+  unfold getAttr
+  cases hf : getters.lookup name with
+  | none => exact NoInternal.pure _
+  | some f =>
+    have hm := lookup_mem_wt _ _ _ hf
+    simp only [getters, List.mem_cons, Prod.mk.injEq, List.mem_nil_iff, or_false] at hm
+    rcases hm with ⟨rfl, rfl⟩ | ⟨rfl, rfl⟩ | ⟨rfl, rfl⟩ | ⟨rfl, rfl⟩ | ⟨rfl, rfl⟩ | ⟨rfl, rfl⟩ | ⟨rfl, rfl⟩ |
+      ⟨rfl, rfl⟩ | ⟨rfl, rfl⟩ | ⟨rfl, rfl⟩ | ⟨rfl, rfl⟩ | ⟨rfl, rfl⟩ | ⟨rfl, rfl⟩
+    all_goals first
+      | exact NoInternal.pure _
+      | (exfalso; apply h; simp [shapeSensitive]; done)
+
+theorem attrIndex_noInternal {c : Ctx} {o : Obj} {name : String} {v : AVal}
+    (h : name ∉ shapeSensitive) (hv : ValOk c name v) : NoInternal (attrIndex o name v) := by
+  unfold attrIndex
+  cases hf : indexers.lookup name with
+  | none => exact NoInternal.pure _
+  | some f =>
+    have hm := lookup_mem_wt _ _ _ hf
+    simp only [indexers, List.mem_cons, Prod.mk.injEq, List.mem_nil_iff, or_false] at hm
+    rcases hm with ⟨rfl, rfl⟩ | ⟨rfl, rfl⟩ | ⟨rfl, rfl⟩ | ⟨rfl, rfl⟩ | ⟨rfl, rfl⟩ | ⟨rfl, rfl⟩ | ⟨rfl, rfl⟩ |
+      ⟨rfl, rfl⟩ | ⟨rfl, rfl⟩ | ⟨rfl, rfl⟩ | ⟨rfl, rfl⟩ | ⟨rfl, rfl⟩ | ⟨rfl, rfl⟩
+    -- Application Specific Information
+    · obtain ⟨a, b, rfl⟩ := hv.appInfo_of (by decide); exact NoInternal.pure _
+    · exfalso; apply h; simp [shapeSensitive]
+    · exfalso; apply h; simp [shapeSensitive]
+    · exfalso; apply h; simp [shapeSensitive]
+    · exfalso; apply h; simp [shapeSensitive]
+    -- Initial Date
+    · obtain ⟨a, rfl⟩ := hv.date_of (by decide); exact NoInternal.pure _
+    -- Name
+    · obtain ⟨a, b, rfl⟩ := hv.name_of (by decide); exact NoInternal.pure _
+    -- Object Group
+    · obtain ⟨a, rfl⟩ := hv.text_of (by decide); exact NoInternal.pure _
+    -- Object Type
+    · obtain ⟨a, rfl⟩ := hv.enum_of (by decide); exact NoInternal.pure _
+    -- Operation Policy Name
+    · obtain ⟨a, rfl⟩ := hv.text_of (by decide); exact NoInternal.pure _
+    -- Sensitive
+    · obtain ⟨a, rfl⟩ := hv.bool_of (by decide); exact NoInternal.pure _
+    · exfalso; apply h; simp [shapeSensitive]
+    -- Unique Identifier
+    · obtain ⟨a, rfl⟩ := hv.text_of (by decide); exact NoInternal.pure _
+
+theorem findIdx?_lt {α} (p : α → Bool) : ∀ (l : List α) (i : Nat), findIdx? p l = some i → i < l.length := by
+  intro l
+  induction l with
+  | nil => intro i h; simp [findIdx?] at h
+  | cons x xs ih =>
+    intro i h
+    simp only [findIdx?] at h
+    split at h
+    · simp only [Option.some.injEq] at h; subst h; simp
+    · simp only [Option.map_eq_some_iff] at h
+      obtain ⟨j, hj, rfl⟩ := h
+      have := ih j hj
+      simp; omega
+
+/-- the index a multivalued attribute's look-up returns is inside the stored list -/
+def InRange (o : Obj) (name : String) (i : Nat) : Prop :=
+  (name = "Name" → i < o.names.length) ∧
+  (name = "Application Specific Information" → i < o.appInfo.length) ∧
+  (name = "Object Group" → i < o.groups.length)
+
+theorem attrIndex_inRange {o : Obj} {name : String} {v : AVal} {i : Nat}
+    (h : attrIndex o name v = .ok (some i)) : InRange o name i := by
+  refine ⟨?_, ?_, ?_⟩ <;> intro hn <;> subst hn
+  · simp [attrIndex, indexers, List.lookup] at h
+    split at h
+    · simp only [pure, Except.pure, Except.ok.injEq] at h; exact findIdx?_lt _ _ _ h
+    · simp [ierr] at h
+  · simp [attrIndex, indexers, List.lookup] at h
+    split at h
+    · simp only [pure, Except.pure, Except.ok.injEq] at h; exact findIdx?_lt _ _ _ h
+    · simp [ierr] at h
+  · simp [attrIndex, indexers, List.lookup] at h
+    split at h
+    · simp only [pure, Except.pure, Except.ok.injEq] at h; exact findIdx?_lt _ _ _ h
+    · simp [ierr] at h
+
+theorem setByIndex_noInternal {c : Ctx} {o : Obj} {name : String} {v : AVal} {i : Nat}
+    (hv : ValOk c name v) (hi : InRange o name i) : NoInternal (setByIndex o name v i) := by
+  unfold setByIndex
+  split
+  · rename_i hn
+    have hn' : name = "Application Specific Information" := by simpa using hn
+    obtain ⟨a, b, rfl⟩ := hv.appInfo_of (lookup_lit hn' (by decide))
+    have := hi.2.1 hn'
+    simp only [this, if_true]; exact NoInternal.pure _
+  · split
+    · rename_i hn
+      have hn' : name = "Name" := by simpa using hn
+      obtain ⟨a, b, rfl⟩ := hv.name_of (lookup_lit hn' (by decide))
+      have := hi.1 hn'
+      simp only [this, if_true]; exact NoInternal.pure _
+    · split
+      · rename_i hn
+        have hn' : name = "Object Group" := by simpa using hn
+        obtain ⟨a, rfl⟩ := hv.text_of (lookup_lit hn' (by decide))
+        have := hi.2.2 hn'
+        simp only [this, if_true]; exact NoInternal.pure _
+      · exact NoInternal.pure _
+
+theorem checkCurrent_noInternal {c : Ctx} {o : Obj} {name : String} {current : Option TAttr}
+    (h : name ∉ shapeSensitive) (hv : ∀ cur, current = some cur → ValOk c name cur.value) :
+    NoInternal (checkCurrent o name current) := by
+  unfold checkCurrent
+  cases current with
+  | none =>
+    have := getAttr_noInternal_of (o := o) h
+    simp only
+    split
+    · exact NoInternal.kerr _ _
+    · exact NoInternal.pure _
+    · rename_i err herr
+      intro s hs; cases hs; exact this s herr
+  | some cur =>
+    have := attrIndex_noInternal (o := o) h (hv cur rfl)
+    simp only
+    split
+    · exact NoInternal.kerr _ _
+    · exact NoInternal.pure _
+    · rename_i err herr
+      intro s hs; cases hs; exact this s herr
+
+theorem currentIndex_noInternal {c : Ctx} {o : Obj} {name : String} {current : Option TAttr}
+    (h : name ∉ shapeSensitive) (hv : ∀ cur, current = some cur → ValOk c name cur.value) :
+    NoInternal (currentIndex o name current) := by
+  unfold currentIndex
+  cases current with
+  | none => exact NoInternal.kerr _ _
+  | some cur =>
+    have := attrIndex_noInternal (o := o) h (hv cur rfl)
+    simp only
+    split
+    · exact NoInternal.kerr _ _
+    · exact NoInternal.pure _
+    · rename_i err herr
+      intro s hs; cases hs; exact this s herr
+
+theorem currentIndex_inRange {o : Obj} {name : String} {current : Option TAttr} {i : Nat}
+    (h : currentIndex o name current = .ok i) : InRange o name i := by
+  unfold currentIndex at h
+  cases current with
+  | none => simp [kerr] at h
+  | some cur =>
+    simp only at h
+    split at h
+    · simp [kerr] at h
+    · rename_i j hj
+      simp only [pure, Except.pure, Except.ok.injEq] at h; subst h
+      exact attrIndex_inRange hj
+    · cases h
+
 end Kmip
